@@ -891,3 +891,224 @@ Lemma start_cancelled_run s0 sched i e neg_ok rest_ok :
   result (run (init s0) sched) i = None ->
   start_activity e neg_ok (result (run (init s0) sched) i) rest_ok = (e, true).
 Proof. intro H. rewrite H. apply start_without_number. Qed.
+
+(* ================= histories of START attempts ================= *)
+Definition step_id (x : step) : option N :=
+  match x with SServe i => Some i | SFail i => Some i | SLost i => Some i | SCrash i => Some i
+             | _ => None end.
+
+Lemma step_caller_other st i mode c :
+  c <> i -> get (s_callers (step_caller st i mode)) c = get (s_callers st) c.
+Proof.
+  intro Hne. unfold step_caller.
+  destruct (get (s_callers st) i) as [|n idx|r|]; [| |reflexivity|reflexivity].
+  - destruct (mode =? 0); cbn [s_callers]; apply get_upd_other; exact Hne.
+  - destruct ((mode =? 0) || (mode =? 2)).
+    + destruct (cas_applies (s_store st) idx); cbn [s_callers]; apply get_upd_other; exact Hne.
+    + cbn [s_callers]. apply get_upd_other. exact Hne.
+Qed.
+
+Lemma do_step_other st x c :
+  step_id x <> Some c -> get (s_callers (do_step st x)) c = get (s_callers st) c.
+Proof.
+  intro H. destruct x as [i|i|i|i|v|]; cbn [do_step s_callers]; try reflexivity;
+    apply step_caller_other; intro E; apply H; cbn; rewrite E; reflexivity.
+Qed.
+
+Lemma run_other sched : forall st c,
+  Forall (fun x => step_id x <> Some c) sched ->
+  get (s_callers (run st sched)) c = get (s_callers st) c.
+Proof.
+  induction sched as [|x r IH]; intros st c F; [reflexivity|].
+  change (run st (x :: r)) with (run (do_step st x) r).
+  inversion F; subst. rewrite IH by assumption. apply do_step_other. assumption.
+Qed.
+
+Lemma run_app st a b : run st (a ++ b) = run (run st a) b.
+Proof. unfold run. apply fold_left_app. Qed.
+
+Lemma run_trace_extends sched : forall st,
+  exists new, s_trace (run st sched) = new ++ s_trace st.
+Proof.
+  induction sched as [|x r IH]; intros st.
+  - exists []. reflexivity.
+  - change (run st (x :: r)) with (run (do_step st x) r).
+    destruct (IH (do_step st x)) as (new & E). rewrite E.
+    destruct (step_trace_shape st x) as [H|[(i & H & _)|[(i & n & H)|(i & n & H)]]]; rewrite H.
+    + exists new. reflexivity.
+    + exists (new ++ [EvRead i]). rewrite <- app_assoc. reflexivity.
+    + exists (new ++ [EvRet i n]). rewrite <- app_assoc. reflexivity.
+    + exists (new ++ [EvLost i n]). rewrite <- app_assoc. reflexivity.
+Qed.
+
+Lemma aid_inj k k' : aid k = aid k' -> k = k'.
+Proof. unfold aid. lia. Qed.
+Lemma aid_oid k j : aid k <> oid j.
+Proof. unfold aid, oid. lia. Qed.
+
+Lemma to_step_id k k' a : k' <> k -> step_id (to_step k a) <> Some (aid k').
+Proof.
+  intro Hne. destruct a as [m|x]; cbn [to_step].
+  - unfold own_step. destruct (m =? 0); [|destruct (m =? 1); [|destruct (m =? 2)]]; cbn;
+      intro E; inversion E as [E']; apply aid_inj in E'; congruence.
+  - destruct x as [j|j|j|j|v|]; cbn; try discriminate;
+      intro E; inversion E as [E']; symmetry in E'; exact (aid_oid _ _ E').
+Qed.
+
+Lemma heff_op_other h k o k' :
+  k' <> k -> Forall (fun x => step_id x <> Some (aid k')) (heff_op h k o).
+Proof.
+  intro Hne. unfold heff_op. destruct o as [ei neg_ok rest sched|ei ev done]; [|constructor].
+  destruct (asks_number (eget (hs_envs h) ei) neg_ok); apply Forall_forall; intros x Hx;
+    apply in_map_iff in Hx; destruct Hx as (a & <- & _); apply to_step_id; exact Hne.
+Qed.
+
+Lemma hstep_ctr h k o : hs_ctr (fst (hstep h k o)) = run (hs_ctr h) (heff_op h k o).
+Proof.
+  unfold hstep. destruct o as [ei neg_ok rest sched|ei ev done].
+  - destruct (asks_number (eget (hs_envs h) ei) neg_ok); [|reflexivity].
+    destruct (result _ (aid k)); reflexivity.
+  - destruct (fsm_dst ev (e_state (eget (hs_envs h) ei))); [|reflexivity].
+    destruct done; reflexivity.
+Qed.
+
+Lemma hrun_ctr ops : forall h k,
+  hs_ctr (hrun_st h k ops) = run (hs_ctr h) (heff h k ops).
+Proof.
+  induction ops as [|o r IH]; intros h k; cbn [hrun_st heff]; [reflexivity|].
+  rewrite IH, run_app, hstep_ctr. reflexivity.
+Qed.
+
+(* an attempt that went on did so under the number its own call obtained during the attempt *)
+Lemma hstep_seen h k o n :
+  hr_seen (snd (hstep h k o)) = Some n ->
+  result (run (hs_ctr h) (heff_op h k o)) (aid k) = Some n.
+Proof.
+  unfold hstep. destruct o as [ei neg_ok rest sched|ei ev done].
+  - destruct (asks_number (eget (hs_envs h) ei) neg_ok); [|discriminate].
+    destruct (result _ (aid k)) as [m|] eqn:R; cbn [snd hr_seen]; [|discriminate].
+    intro H. inversion H; subst. reflexivity.
+  - destruct (fsm_dst ev (e_state (eget (hs_envs h) ei))); [|discriminate].
+    destruct done; discriminate.
+Qed.
+
+Lemma sublist_single {A} (x : A) l : In x l -> sublist [x] l.
+Proof.
+  induction l as [|y l IH]; intros H; [destruct H|].
+  destruct H as [->|H].
+  - apply sl_keep. clear IH. induction l as [|z l IHl]; [constructor|apply sl_skip; exact IHl].
+  - apply sl_skip. auto.
+Qed.
+
+Lemma sublist_nil {A} (l : list A) : sublist [] l.
+Proof. induction l; [constructor|apply sl_skip; assumption]. Qed.
+
+Definition fresh_from (st : state) (k : N) : Prop :=
+  forall k', k <= k' -> get (s_callers st) (aid k') = Idle.
+
+Lemma result_done st c n : result st c = Some n -> get (s_callers st) c = Done (Some n).
+Proof.
+  unfold result. destruct (get (s_callers st) c) as [| |[m|]|]; try discriminate.
+  intro H. inversion H. reflexivity.
+Qed.
+
+(* the numbers of the attempts are, in the order of the attempts, numbers written to the counter
+   by the attempts' own calls after the history began *)
+Lemma hrun_sub ops : forall h k,
+  link (hs_ctr h) -> fresh_from (hs_ctr h) k ->
+  exists new, s_trace (hs_ctr (hrun_st h k ops)) = new ++ s_trace (hs_ctr h) /\
+              sublist (hnums (hrun_res h k ops)) (flat_map ev_handed (rev new)).
+Proof.
+  induction ops as [|o r IH]; intros h k L F; cbn [hrun_st hrun_res].
+  - exists []. split; [reflexivity|constructor].
+  - set (h' := fst (hstep h k o)).
+    assert (Hc : hs_ctr h' = run (hs_ctr h) (heff_op h k o)) by apply hstep_ctr.
+    destruct (run_trace_extends (heff_op h k o) (hs_ctr h)) as (new1 & E1).
+    assert (L' : link (hs_ctr h')) by (rewrite Hc; apply link_run; exact L).
+    assert (F' : fresh_from (hs_ctr h') (N.succ k)).
+    { intros k' Hk'. rewrite Hc. rewrite run_other; [apply F; lia|].
+      apply heff_op_other. lia. }
+    destruct (IH h' (N.succ k) L' F') as (new2 & E2 & S2).
+    exists (new2 ++ new1). split.
+    + rewrite E2, Hc, E1. apply app_assoc.
+    + rewrite rev_app_distr, flat_map_app. unfold hnums. cbn [flat_map].
+      apply sublist_app; [|exact S2].
+      destruct (hr_seen (snd (hstep h k o))) as [n|] eqn:Sn; [|apply sublist_nil].
+      apply sublist_single. apply hstep_seen in Sn. apply result_done in Sn.
+      apply (in_ret_handed (aid k)). apply -> in_rev.
+      assert (Hin : In (EvRet (aid k) n) (s_trace (run (hs_ctr h) (heff_op h k o)))).
+      { rewrite <- Hc in *. apply L'. exact Sn. }
+      rewrite E1 in Hin. apply in_app_or in Hin. destruct Hin as [Hin|Hin]; [exact Hin|].
+      exfalso. apply L in Hin. rewrite (F k) in Hin by lia. discriminate.
+Qed.
+
+Lemma fresh_init s0 k : fresh_from (init s0) k.
+Proof. intros k' _. reflexivity. Qed.
+
+Lemma hist_sublist s0 states ops :
+  sublist (hnums (hrun_res (hinit s0 states) 0 ops))
+          (handed (hs_ctr (hrun_st (hinit s0 states) 0 ops))).
+Proof.
+  destruct (hrun_sub ops (hinit s0 states) 0 (link_init s0) (fresh_init s0 0)) as (new & E & S).
+  unfold handed, chron. rewrite E. cbn [hinit hs_ctr init s_trace]. rewrite app_nil_r. exact S.
+Qed.
+
+(* every attempt that goes on does so under a number larger than that of every earlier attempt
+   of any environment, and larger than the counter at the start *)
+Lemma hist_sorted s0 states ops :
+  wf_store s0 -> env_ok (init s0) (heff (hinit s0 states) 0 ops) ->
+  StronglySorted N.lt (cur s0 :: hnums (hrun_res (hinit s0 states) 0 ops)).
+Proof.
+  intros W Hok.
+  apply (sublist_sorted N.lt _ (cur s0 :: handed (hs_ctr (hrun_st (hinit s0 states) 0 ops)))).
+  - apply sl_keep. apply hist_sublist.
+  - rewrite hrun_ctr. cbn [hinit hs_ctr]. apply handed_sorted; assumption.
+Qed.
+
+Lemma hist_nodup s0 states ops :
+  wf_store s0 -> env_ok (init s0) (heff (hinit s0 states) 0 ops) ->
+  NoDup (hnums (hrun_res (hinit s0 states) 0 ops)).
+Proof.
+  intros W Hok. pose proof (hist_sorted s0 states ops W Hok) as S.
+  inversion S; subst. apply ssorted_nodup. assumption.
+Qed.
+
+(* one attempt: it goes on only under a number obtained by its own fresh call — the caller was
+   idle when the attempt began and returned that number through an applied CAS during it *)
+Lemma attempt_draws_fresh h k o n :
+  link (hs_ctr h) -> get (s_callers (hs_ctr h)) (aid k) = Idle ->
+  hr_seen (snd (hstep h k o)) = Some n ->
+  ~ In (EvRet (aid k) n) (s_trace (hs_ctr h)) /\
+  In (EvRet (aid k) n) (s_trace (hs_ctr (fst (hstep h k o)))).
+Proof.
+  intros L G Sn. split.
+  - intro Hin. apply L in Hin. rewrite G in Hin. discriminate.
+  - rewrite hstep_ctr. apply hstep_seen in Sn. apply result_done in Sn.
+    apply (link_run (heff_op h k o) _ L). exact Sn.
+Qed.
+
+(* what the environment keeps: after an attempt that went on, its run number is the drawn one
+   (or 0 if tasks failed to start); a cancelled or refused attempt changes nothing *)
+Lemma attempt_env h k ei neg_ok rest sched :
+  let x := snd (hstep h k (HStart ei neg_ok rest sched)) in
+  let e := eget (hs_envs h) ei in
+  match hr_seen x with
+  | Some n => hr_rn x = (if rest <=? 1 then n else 0) /\ hr_err x = negb (rest =? 0) /\
+              eget (hs_envs (fst (hstep h k (HStart ei neg_ok rest sched)))) ei =
+              mkEnv (hr_state x) (hr_rn x)
+  | None => hr_err x = true /\ hr_state x = e_state e /\ hr_rn x = e_rn e /\
+            hs_envs (fst (hstep h k (HStart ei neg_ok rest sched))) = hs_envs h
+  end.
+Proof.
+  cbv zeta. unfold hstep.
+  destruct (asks_number (eget (hs_envs h) ei) neg_ok); [|cbn; auto].
+  destruct (result _ (aid k)) as [n|]; [|cbn; auto].
+  cbn [snd fst hr_seen hr_rn hr_err hr_state hs_envs].
+  unfold eget. cbn [assocN]. rewrite N.eqb_refl.
+  destruct (rest =? 0) eqn:R0.
+  - apply N.eqb_eq in R0. subst. cbn. auto.
+  - destruct (rest =? 1) eqn:R1.
+    + apply N.eqb_eq in R1. subst. cbn. auto.
+    + apply N.eqb_neq in R0. apply N.eqb_neq in R1.
+      assert (H : (rest <=? 1) = false) by (apply N.leb_gt; lia). rewrite H. cbn. auto.
+Qed.
